@@ -250,6 +250,7 @@ def run_check(pid, tier, seed):
     nonrepro = []
     replays_run = 0
     extra_confirmed = [0]
+    replay_selftest_errors = []
     ob_reports = []
     for ob in obs:
         agg = results[ob.name]
@@ -339,15 +340,21 @@ def run_check(pid, tier, seed):
             d = os.path.join(OUT, 'replays', pid)
             os.makedirs(d, exist_ok=True)
             paths = []
-            for i, ws in enumerate(agg.wsamples[:2]):
+            for i, ws in enumerate(agg.wsamples[:max(2, sxrun.WSAMPLES - 1)]):
                 path = os.path.join(d, '%s-selftest%d.json' % (ob.name, i))
                 with open(path, 'w') as f:
                     json.dump({'property': pid, 'obligation': ob.name, 'label': 'selftest', 'witness': to_json(ws)}, f)
                 paths.append(path)
             for path, r in zip(paths, replay_files(paths)):
                 replays_run += 1
-                if r.get('violated') or (r.get('error') and 'Traceback' in str(r.get('error'))):
-                    inconclusive.append('%s: replay self-test failed on a passing path: %s' % (ob.name, str(r)[:400]))
+                if r.get('violated'):
+                    # the replay (concrete oracle on the real code) contradicts the symbolic verdict
+                    inconclusive.append('%s: replay self-test: a passing path is reported as violated by the replay: %s' % (
+                        ob.name, str(r)[:400]))
+                elif r.get('error') and 'Traceback' in str(r.get('error')):
+                    # a defect of the replay code itself: does not touch the verdict of this run; reported
+                    replay_selftest_errors.append('%s: %s' % (ob.name, str(r.get('error'))[-400:]))
+                    log('  WARNING: replay self-test crashed on a passing path of %s (harness defect, verdict unaffected)' % ob.name)
                 else:
                     os.remove(path)
         rep['violations_found'] = len(agg.viols)
@@ -390,6 +397,7 @@ def run_check(pid, tier, seed):
         'functions_encoded': sorted(reached),
         'per_obligation': to_json(ob_reports),
         'second_solver_cross_check': xcheck,
+        'replay_selftest_errors': replay_selftest_errors[:5],
         'skipped_obligations': skipped,
         'inconclusive': inconclusive[:40],
         'known_findings_hit': sorted(known_hits),
